@@ -16,6 +16,7 @@ import (
 	"time"
 
 	"google.golang.org/protobuf/proto"
+	"google.golang.org/protobuf/reflect/protoreflect"
 	"google.golang.org/protobuf/types/known/durationpb"
 
 	"github.com/tochemey/goakt/v4/extension"
@@ -116,7 +117,26 @@ func VerifC37DumpSupervisorSpec(s *internalpb.SupervisorSpec) string {
 	if s.AnyErrorDirective != nil {
 		anyd = strconv.Itoa(int(s.GetAnyErrorDirective()))
 	}
-	return fmt.Sprintf("st=%d;mr=%d;to=%s;dirs=%s;any=%s", int(s.GetStrategy()), s.GetMaxRetries(), verifC37Dur(s.GetTimeout()), strings.Join(rs, ","), anyd)
+	// the backoff fields are read through reflection so that this hook also builds against a tree
+	// whose SupervisorSpec does not have them (the seeded revert of fix 1ad4e99)
+	bo := "-"
+	if i := verifC37SpecDur(s, "backoff_initial_delay"); i != "-" {
+		bo = i + "/" + verifC37SpecDur(s, "backoff_max_delay") + "/" + verifC37SpecDur(s, "backoff_reset_after")
+	}
+	return fmt.Sprintf("st=%d;mr=%d;to=%s;dirs=%s;any=%s;bo=%s", int(s.GetStrategy()), s.GetMaxRetries(), verifC37Dur(s.GetTimeout()), strings.Join(rs, ","), anyd, bo)
+}
+
+func verifC37SpecDur(s *internalpb.SupervisorSpec, name string) string {
+	m := s.ProtoReflect()
+	fd := m.Descriptor().Fields().ByName(protoreflect.Name(name))
+	if fd == nil || !m.Has(fd) {
+		return "-"
+	}
+	d, ok := m.Get(fd).Message().Interface().(*durationpb.Duration)
+	if !ok {
+		return "?"
+	}
+	return verifC37Dur(d)
 }
 
 func VerifC37DumpPassivation(st passivation.Strategy) string {
